@@ -127,6 +127,7 @@ func runC06(seed int64, n int, dir string, _ []string) {
 	defer o.Close()
 	pr := hc.NewProc("")
 	defer pr.Close()
+	zoneLaws(o)
 
 	// exhaustive Kleene tables against min/max/negation, on the real ternary package
 	tv := []ternary.Value{ternary.FALSE, ternary.UNKNOWN, ternary.TRUE}
